@@ -125,7 +125,7 @@ PROPS = {
                  "fifth of the boxes below moov (table boxes included), half of those also 1-3 unknown boxes (free / skip / wide / uuid / made-up); split stts / ctts tables may carry empty runs. Virtual-large stratum: a real movie header followed by a generated > 4 GiB tail, one "
                  "chunk whose contents cross 2^32 (constant size and size table, chunk offset below / above 2^32). For every id in 0..=N+2 (+ far beyond) "
                  "sample_count, sample_offset and read_sample (bytes compared, start, delta, offset, sync) are compared with the model - in increasing order, "
-                 "then again on the same reader backwards per track and in a shuffled order interleaving the tracks. distinct = distinct per-track "
+                 "then again on the same reader backwards per track and in a shuffled order interleaving the tracks; one movie in three once more with one chunk offset moved strictly inside the preceding chunk of the same track (chunks sharing bytes; expected bytes taken from the file at the formula offsets). distinct = distinct per-track "
                  "layout shape (sample-count bucket, chunk composition for N<=6, #stsc runs, offset form, size mode, ctts/stss shape, #zero sizes); "
                  "non-trivial = track with >= 2 samples."),
         "assumptions": [
